@@ -41,11 +41,6 @@ RC.append(("vstack/hstack/column_stack/dstack of a real traced array with a comp
            [("C09", p, "rev", "wrong-shape", "mixed:True,arg_cplx:real") for p in ("vstack", "hstack", "column_stack", "dstack", "row_stack")]))
 RC.append(("np.select of 0-d choices with mixed real/complex members: the re-implementation rebuilds the result from a real-typed list and loses the imaginary part",
            [("C09", "select", "rev", "wrong-shape", "rank:0,ops_cplx:~rc.*"), ("C09", "select", "fwd", "wrong-shape", "rank:0,ops_cplx:~rc.*")]))
-RC.append(("np.diff with n >= 2 along an axis shorter than n+1 (NumPy returns an empty array): the VJP rebuilds a gradient that is longer than the argument",
-           [("C01", "diff", "rev", "wrong-shape", "n_gt_dim_minus_1:True"), ("C05", "diff", "rev", "wrong-structure", "n_gt_dim_minus_1:True"),
-            ("C09", "diff", "rev", "wrong-shape", "n_gt_dim_minus_1:True")]))
-RC.append(("np.diff of a complex array whose result is empty: the VJP returns real zeros for a complex argument",
-           [("C09", "diff", "rev", "wrong-shape", "arg_cplx:complex")]))
 RC.append(("np.kron beyond 2-D / np.linalg.norm(ord=inf): wrong first-order rules (see C01) also give a wrong Gauss-Newton Hessian",
            [("C07", "kron", "*", "gauss-newton-hessian-wrong", "max_rank:~[3-9]"), ("C07", "norm", "*", "gauss-newton-hessian-wrong", "ord:inf")]))
 RC.append(("np.linalg.eigh: the rule skips its eigenvector term when the eigenvector cotangent is zero-VALUED (`if anp.any(vg)`), even when that cotangent is a traced quantity; "
